@@ -125,6 +125,10 @@ def run(ctx):
     ctx.ob("K-KIND", "enum consume_budget fills the slot for an empty budget too", len(hir.find_calls(cb["body"], "insert")) == 1
            and any(hir.callee_name(c) == "new_empty" for c in hir.find_calls(cb["body"])), "")
 
+    # whether the budget slot gets filled depends on the bracket borders being char counts: a byte length moves the scan start past a short
+    # (empty / one-digit) budget whenever the bracket keyword is non-ASCII, and the task is then classified as a sentence (seeded c15-a)
+    maps.rule_U_CHARS(ctx)
+
     ctx.rule("K-CAST", "cast_to_task = (sentence, empty budget); try_cast_to_sentence = Ok(sentence) iff the budget is empty, else Err(the "
              "unchanged task) -- for the enum model, the lexical model and the NarseseValue lift")
     for model, sty, tty in (("enum", "enum_narsese::sentence::Sentence", "enum_narsese::task::Task"),
